@@ -162,7 +162,7 @@ TryAlts(c, cp) ==
   ELSE IF j > 0
   THEN LET fact == cp.snap[j]
            r == MGU(Shift(fact.term, c.nv), cp.goal, c.s) IN
-       Ev([Push(c, [cp EXCEPT !.i = j + 1]) EXCEPT !.s = r.s, !.nv = @ + fact.nv, !.goals = cp.rest],
+       Ev([Push(c, [cp EXCEPT !.i = j + 1, !.seen = Append(@, fact.id)]) EXCEPT !.s = r.s, !.nv = @ + fact.nv, !.goals = cp.rest],
           "DoCallFacts")
   ELSE TryDefs(c, [kind |-> "defs", D |-> cp.D, d |-> 1, goal |-> cp.goal, rest |-> cp.rest, s |-> c.s])
 
@@ -218,7 +218,7 @@ TryRetract(c, cp) ==
   ELSE IF j = 0 THEN Backtrack(Ev(c, "DoRetractExhausted"))
   ELSE LET fact == cp.snap[j]
            r == MGU(Shift(fact.term, c.nv), cp.pat, c.s) IN
-       Ev([Push(c, [cp EXCEPT !.i = j + 1]) EXCEPT
+       Ev([Push(c, [cp EXCEPT !.i = j + 1, !.seen = Append(@, fact.id)]) EXCEPT
               !.s = r.s, !.nv = @ + fact.nv, !.goals = cp.rest,
               !.db = Put(c.db, cp.key, SelectSeq(Get(c.db, cp.key), LAMBDA f : f.id # fact.id))],
           "DoRetractNext")
@@ -279,7 +279,7 @@ Builtin(c, name, t, rest) ==
          ELSE LET k2 == KeyOf(pat) IN
               TryRetract(Ev(c, "DoRetractStart"),
                          [kind |-> "retract", snap |-> Get(c.db, k2), i |-> 1, pat |-> pat, key |-> k2,
-                          rest |-> rest, s |-> c.s])
+                          rest |-> rest, s |-> c.s, seen |-> <<>>])
     [] name = "retractall" ->
          LET pat == Resolve(args[1], c.s) IN
          IF ~Callable(pat) THEN Stop(c, "unspec")
@@ -294,7 +294,7 @@ Call(c, t, cb, rest) ==
   IF ~Callable(t) THEN Stop(c, "unspec")
   ELSE TryAlts(IF t.n \in ApiNames THEN Ev(c, "DoCallReserved") ELSE c,
                [kind |-> "alts", snap |-> Get(c.db, KeyOf(t)), i |-> 1, goal |-> t,
-                D |-> DefsFor(c, t.n, Arity(t)), rest |-> rest, s |-> c.s])
+                D |-> DefsFor(c, t.n, Arity(t)), rest |-> rest, s |-> c.s, seen |-> <<>>])
 
 StepF(c) ==
   IF c.goals = <<>> THEN Ev([c EXCEPT !.status = "answer"], "DoAnswer")
@@ -534,13 +534,19 @@ BarriersOK ==
      /\ f.cb <= Len(runs[r].cps) + 1
      /\ (f.g.b = "commit" => f.g.B <= Len(runs[r].cps))
 
-\* C14: a retract choice point never holds a fact id twice in its snapshot, and the
-\* part of the snapshot already passed contains no fact that is still visited later
+\* C14 (logical update view), with the visited fact identities kept as a history in the choice point:
+\* an enumeration visits facts of its snapshot only, in snapshot order, each at most once; a fact a
+\* retract has returned is gone from the database for good
+IsSubseqOf(a, b) == a = SelectSeq(b, LAMBDA x : \E i \in DOMAIN a : a[i] = x)
 SnapshotsOK ==
   \A r \in DOMAIN runs : \A i \in DOMAIN runs[r].cps :
      LET cp == runs[r].cps[i] IN
      cp.kind \in {"retract", "alts"} =>
-        \A p, q \in DOMAIN cp.snap : p # q => cp.snap[p].id # cp.snap[q].id
+        LET ids == [p \in DOMAIN cp.snap |-> cp.snap[p].id] IN
+        /\ \A p, q \in DOMAIN ids : p # q => ids[p] # ids[q]
+        /\ \A p, q \in DOMAIN cp.seen : p # q => cp.seen[p] # cp.seen[q]
+        /\ IsSubseqOf(cp.seen, ids)
+        /\ (cp.kind = "retract" => \A p \in DOMAIN cp.seen : ~InDb(engs[runs[r].e].db, cp.key, cp.seen[p]))
 
 
 \* C07 (action property, independent of the definitions of the steps): in one step the facts of a
